@@ -188,3 +188,9 @@ def delay_cap_ms(t):
         caps = [c for c in caps if c is not None]
         return min(caps) if caps else None
     return None
+
+
+def run_thorough(ctx):
+    # the cfg(windows) sibling implementation, analysed on the windows-msvc build
+    import winrules
+    winrules.c11_wait_handle(ctx)
